@@ -3,7 +3,8 @@
 //! Every operation the code under test performs on the stream (`read`, `ready`, `write`, `flush`,
 //! `close`) is appended to a shared log together with the frame tag it concerns, and a
 //! [`FaultPlan`] can make exactly one of them fail (the stream stays broken afterwards, like a
-//! websocket after an I/O error).
+//! websocket after an I/O error), or *panic* inside it (a bug in an embedder's stream adapter): the
+//! panic unwinds whichever task polled the stream.
 use std::{
     pin::Pin,
     sync::{Arc, Mutex},
@@ -15,6 +16,9 @@ use iroh_relay::ExportKeyingMaterial;
 use n0_error::{AnyError, anyerr};
 use n0_future::{Sink, Stream};
 use tokio::sync::mpsc;
+
+/// Message of the panics raised by a [`FaultPlan`] with `panic = true`.
+pub const INJECTED_PANIC: &str = "injected stream adapter panic";
 
 /// One stream operation performed by the code under test.
 #[derive(Debug, Clone, PartialEq, Eq, serde::Serialize)]
@@ -41,6 +45,8 @@ pub struct FaultPlan {
     pub kind: String,
     pub tag: Option<u8>,
     pub nth: usize,
+    /// The operation does not return an error: the adapter panics (the polling task unwinds).
+    pub panic: bool,
 }
 
 #[derive(Debug)]
@@ -81,6 +87,7 @@ impl MemStream {
     /// Records the op and decides whether it fails.
     fn op(&mut self, kind: &'static str, tag: u8) -> Result<(), AnyError> {
         let mut fail = self.broken;
+        let mut panic = false;
         if !fail {
             if let Some(f) = &self.fault {
                 if f.kind == kind && f.tag.is_none_or(|t| t == tag) {
@@ -88,11 +95,15 @@ impl MemStream {
                     if self.seen == f.nth {
                         fail = true;
                         self.broken = true;
+                        panic = f.panic;
                     }
                 }
             }
         }
-        self.log.lock().unwrap().ops.push(Op { kind, tag, failed: fail });
+        self.log.lock().unwrap().ops.push(Op { kind, tag, failed: fail }); // lock released before a panic
+        if panic {
+            panic!("{INJECTED_PANIC} in {kind}");
+        }
         if fail { Err(anyerr!("injected {kind} failure")) } else { Ok(()) }
     }
 }
